@@ -103,6 +103,11 @@ func (e *Engine) yield(forced bool) {
 	if !forced && !e.schedFull() {
 		return
 	}
+	if !forced && e.cur.id == 0 {
+		// reduction: the main (harness) goroutine is not preempted; it runs until it blocks, yields
+		// explicitly or drains.  Secondary goroutines interleave fully with each other.
+		return
+	}
 	r := e.runnable()
 	if len(r) <= 1 {
 		if len(r) == 1 && r[0] != e.cur {
@@ -219,7 +224,6 @@ func spawnGoroutine(i *interpreter, pos token.Pos, fn value, args []value) {
 		}()
 		call(i, nil, pos, fn, args)
 	}()
-	e.yield(false)
 }
 
 // drain lets secondary goroutines run until each is done or blocked (called by main at the end of
